@@ -325,6 +325,11 @@ def extract_orientation(rel, qual):
     fn = T.find_def(tree, qual)
     pts = {"pA": 0, "pB": 1, "pC": 2, "pD": 3}
     for n in ast.walk(fn):
+        # `0 < det_3x3(..)` is the same test as `det_3x3(..) > 0`
+        if isinstance(n, ast.If) and isinstance(n.test, ast.Compare) and len(n.test.ops) == 1 and isinstance(n.test.ops[0], ast.Lt) \
+                and isinstance(n.test.left, ast.Constant) and isinstance(n.test.comparators[0], ast.Call) \
+                and getattr(n.test.comparators[0].func, "id", None) == "det_3x3":
+            n = ast.If(ast.Compare(n.test.comparators[0], [ast.Gt()], [n.test.left]), n.body, n.orelse)
         if isinstance(n, ast.If) and isinstance(n.test, ast.Compare) and isinstance(n.test.left, ast.Call) \
                 and getattr(n.test.left.func, "id", None) == "det_3x3":
             if not (isinstance(n.test.ops[0], ast.Gt) and isinstance(n.test.comparators[0], ast.Constant)
